@@ -17,7 +17,7 @@ LEVEL = "exploration"
 META = {
     "technique": "typed kernel tables: a ** b kernels for C int / float / complex / object operand combinations x exponent forms (runtime signed/unsigned/double variable, literals 0..5, negative, fractional) x cpow on/off; result types via cython.typeof against the transcribed cpow table, values against CPython's ** on the same numbers",
     "level_text": "Exploration: ~300 kernels cover every row of the documented cpow table for 8 C integer base types, double and float, literal bases, Python-object operands (incl. the 2**n fast path and in-place **=) and double complex. For each kernel the compile-time result type must be in the documented set for its row; values are compared with CPython for boundary bases (0, +-1, +-2, +-3, 10, sqrt/cbrt-of-bound neighbours, type bounds), exponents -3..7, 15..65, 100, special doubles (+-0, +-inf, nan, huge, tiny, negative bases with fractional exponents) plus Hypothesis-drawn pairs. C-integer results are required exact when the exponent is non-negative and the power fits. Sampling, no proof.",
-    "level_note": "Table transcribed from docs/src/userguide/cpow_table.csv (path recorded in evidence). Trusts CPython's int/float/complex ** and the platform libm pow() (CPython's float ** float calls the same function). C float (32-bit) results are compared with 1e-5 relative tolerance, double complex with 1e-12 (C08 owns exact complex arithmetic). int ** non-negative-int typed as C double is a documented deviation and compared with float(a) ** float(b).",
+    "level_note": "Table transcribed from docs/src/userguide/cpow_table.csv (path recorded in evidence). Trusts CPython's int/float/complex ** and the platform libm pow() (CPython's float ** float calls the same function). C float (32-bit) results are compared with 1e-5 relative tolerance, C double results with 1e-15 (x ** -1 is computed as 1.0 / x), double complex with 1e-12 (C08 owns exact complex arithmetic). int ** non-negative-int typed as C double is a documented deviation and compared with float(a) ** float(b).",
 }
 
 DOC = "docs/src/userguide/cpow_table.csv"
@@ -262,7 +262,7 @@ def run(ctx):
                 "case per typed kernel, exact count in coverage.distinct_nontrivial_exact")
     ctx.assumptions = ["cpow table transcribed from " + DOC,
                        "CPython float ** float and libm pow() agree (same function)",
-                       "C float results: 1e-5 relative tolerance; double complex: 1e-12 (exactness is C08's)",
+                       "C float results: 1e-5 relative tolerance; C double results: 1e-15; double complex: 1e-12 (exactness is C08's)",
                        "C-integer results with negative exponent or non-fitting power are unspecified and skipped"]
 
 
